@@ -63,8 +63,8 @@ META = dict(
          "deepObjN) by the stream deep-sharing (is-identity and append probes on chains of nested groups, depths 1-6, "
          "deepcopy()/copy.deepcopy/pickle) and by the frame oracle; the CPython copy/pickle protocol dispatch "
          "(copy._reconstruct, memo discipline, order args -> __new__ -> memo -> state -> __setstate__) is transcribed by "
-         "hand into deepObjN, not verified; deepcopyN stores the rebuilt token list once after the loop instead of after "
-         "each recursive call (equivalent because the calls only allocate: deepcopyN_ext); fuel-bounded recursion, "
+         "hand into deepObjN, not verified; deepcopyN stores the rebuilt token list once after the loop; the statement-by-statement "
+         "loop (deepcopyLoop, store after each recursive call) is proved equal to it (deepcopyLoop_eq); fuel-bounded recursion, "
          "theorems hold for every fuel >= depth; "
          "the from_dict tree model is a separate small model (not derived from the PR model in Lean).",
     technique="Lean 4 proof on the value model + differential copies/concatenations + mutate-then-compare oracle",
@@ -99,6 +99,7 @@ THEOREMS = [
     "PP.PR.concat_assoc_former_witness",
     "PP.PR.from_dict_item_step",
     # deepcopy() of nested groups at every depth (PPProofs/Props/C11Deep.lean, heap model PRHeapDeep.lean)
+    "PP.PRHeap.deepcopyLoop_eq",
     "PP.PRHeap.deepcopy_tokens_fresh",
     "PP.PRHeap.deepcopy_frame_tokens",
     "PP.PRHeap.deepcopy_frame_tokens_many",
